@@ -782,7 +782,10 @@ class NestedSampler(BaseNestedSampler):
             self.populate_live_points()
             flags[2] = True
 
-        if self.condition > self.tolerance:
+        # Only reset the finalised flag if there are live points to continue
+        # sampling with. Once a run is finalised the live points have been
+        # consumed, e.g. prior sampling where the condition is never computed.
+        if self.condition > self.tolerance and self.live_points is not None:
             self.finalised = False
 
         self.initialise_history()
